@@ -129,3 +129,18 @@ Definition run_objev (T : tables) (r : root) (input : list Z) : string :=
   | Some v => sconcat ";" (map show_event_plain (obj_to_events T r v))
   | None => "None"
   end.
+
+(** [events_to_obj] applied to the events of an accepted strict decode *)
+Definition only_events (l : list action) : list event :=
+  flat_map (fun a => match a with Ev e => [e] | _ => [] end) l.
+
+Definition run_evobj (T : tables) (r : root) (input : list Z) : string :=
+  match decode T true r input with
+  | (evs, OAccepted) =>
+      match events_to_obj T r (only_events (map fst evs)) with
+      | Some v => show_value v
+      | None => "CRASH"
+      end
+  | _ => "None"
+  end.
+
